@@ -280,7 +280,7 @@ class C03(PropBase):
             if c["all"] is not None:
                 flat.append(c["all"])
                 idx.append((i, "all"))
-        ans = common.run_driver([common.TK_IMPL], flat)
+        ans = common.run_driver([common.TK_IMPL], flat, jobs=min(4, common.NCPU))
         parts = [dict() for _ in impl_cases]
         for (i, k), a in zip(idx, ans):
             parts[i][k] = a
